@@ -43,6 +43,12 @@ def gen_cases(tier, seed):
                 # split the search at the first event to get enough parallel cases
                 for first in range(17):
                     cases.append(dict(prog=prog, init=init, agg=agg, depth=depth, first=first, seed=seed))
+    # two requested parameters whose pre-existing .grad fields ARE one tensor, or overlapping views of one buffer (arbitrary
+    # pre-existing content): every update is ADDED to what is there, so the shared memory receives both (added after a seeded change
+    # that computed all new values first and wrote them afterwards: the last write won)
+    for prog in ("shared-subexpr", "gen-inputs", "equal-sized"):
+        for agg in ("const", "upgrad"):
+            cases.append(dict(prog=prog, init="aliased", agg=agg, depth=depth, first=0, seed=seed))
     return cases
 
 
@@ -224,6 +230,46 @@ def run_case(case):
             pre_viol.append(dict(sig="update-depends-on-chunk-size", msg=f"{case['prog']}: {x.tolist()} vs {y.tolist()}"))
     for p in params:
         p.grad = None
+    if case["init"] == "aliased":
+        viol, execs, outcomes = list(pre_viol), 2, set()
+        a_, b_ = req[0], req[1]  # both of shape (2,)
+        for mode in ("same-tensor", "overlapping-views"):
+            for k in (None, 1):
+                for p in params:
+                    p.grad = None
+                if mode == "same-tensor":
+                    buf = torch.tensor([0.25, -1.5], dtype=torch.float64)
+                    a_.grad, b_.grad = buf, buf
+                    exp1 = buf.numpy().copy() + delta[k][0] + delta[k][1]
+                    upd = delta[k][0] + delta[k][1]
+                else:
+                    buf = torch.tensor([0.25, -1.5, 4.0], dtype=torch.float64)
+                    a_.grad, b_.grad = buf[0:2], buf[1:3]
+                    upd = np.array([delta[k][0][0], delta[k][0][1] + delta[k][1][0], delta[k][1][1]])
+                    exp1 = buf.numpy().copy() + upd
+                ptr = buf.data_ptr()
+                ok = True
+                for rep in (1, 2):
+                    try:
+                        G["call"](k, G["mk_agg"](G["m"]))
+                        execs += 1
+                    except Exception as e:
+                        viol.append(dict(sig=f"exception:{type(e).__name__}", cls=f"exc:aliased:{mode}", msg=f"{case['prog']} aliased .grad ({mode}) k={k}: {e!r}"[:400]))
+                        ok = False
+                        break
+                    exp = exp1 + (rep - 1) * upd
+                    got = buf.numpy()
+                    mag = np.abs(exp) + np.abs(upd) * rep + 4.0
+                    if a_.grad.data_ptr() != ptr or not bool(np.all(np.abs(got - exp) <= 8 * np.finfo(np.float64).eps * mag)):
+                        viol.append(dict(sig="aliased-grad-lost-update", cls=f"aliased:{case['prog']}:{mode}",
+                                         msg=f"{case['prog']} agg={case['agg']} k={k}: req[0].grad and req[1].grad are {mode} of one buffer; after call #{rep} the "
+                                             f"buffer holds {got.tolist()}, expected previous content plus both updates {exp.tolist()}"))
+                        ok = False
+                        break
+                outcomes.add(f"aliased:{mode}:{k}:{ok}")
+        for p in params:
+            p.grad = None
+        return dict(viol=viol, execs=execs, outcomes=sorted(outcomes), nontrivial=len(outcomes))
     if case["init"] == "content":
         for i, p in enumerate(params):
             if i % 2 == 0:
@@ -318,6 +364,12 @@ def run_case(case):
                 reach += [("agg-in", M_), ("agg-out", x)]
             for j in fresh:
                 g = req[j].grad
+                try:  # a created .grad is an ordinary tensor: user code (zero_grad(set_to_none=False), clipping, torch's own backward) edits it in place
+                    g.mul_(1.0)
+                except Exception as e:
+                    viol.append(dict(sig="fresh-grad-not-editable-in-place", cls=f"fresh-readonly:{case['prog']}",
+                                     msg=f"{case['prog']} history={hist}: req[{j}].grad.mul_(1.0) raised {e!r}"[:400]))
+                    return False
                 rg = _ranges(g)
                 for name, t in reach:
                     if t is g:
